@@ -888,6 +888,33 @@ def c19_bad(tier, rnd):
     return progs
 
 
+def c19_bad_metal(tier, rnd):
+    """invalid expressions planted in METAL parts that are compiled but never rendered"""
+    from .concretize import BAD_EXPRS
+    progs = []
+    kbads = list(range(4)) + (rnd.sample(range(4, len(BAD_EXPRS)), 2) if tier == "quick" else list(range(4, len(BAD_EXPRS))))
+    for kbad in kbads:
+        b = bad(kbad)
+        # METAL: parts that are compiled but never rendered -- a filler that a later filler of the same slot replaces, the
+        # default content of a slot that is filled, a filler for a slot the macro does not define, a macro nobody uses
+        for kind in ("shadowed-filler", "filled-slot-default", "unknown-slot-filler", "unused-macro"):
+            al = Alloc(tier)
+            slot_default = [Text("D", b)] if kind == "filled-slot-default" else [Text("D")]
+            lib = [Open(dm="m1", name="div", sattr=[]), Text("M["), Open(ds="a", name="span", sattr=[])] + slot_default + [CLOSE, Text("]"), CLOSE]
+            if kind == "unused-macro":
+                lib += [Text("\n"), Open(dm="m2", name="p", sattr=[]), Text("N", b), CLOSE]
+            fills = []
+            if kind == "shadowed-filler":
+                fills += mk_fill("a", "a1", body=[Text("k", b)])
+            if kind == "unknown-slot-filler":
+                fills += mk_fill("z", "z1", body=[Text("k", b)])
+            fills += mk_fill("a", "a2")
+            main = [Text("pre"), Open(um=("m1", 1, False), name="section", sattr=[]), Text("ign")] + fills + [CLOSE, Text("post")]
+            progs.append(program(main + lib, al.dom, main=len(main), libs=[{"from": len(main) + 1, "to": len(main) + len(lib)}],
+                                 fam="C19:metal:" + kind))
+    return progs
+
+
 # ------------------------------------------------------------------ C07
 def c07_family(tier, rnd):
     quick = tier == "quick"
